@@ -57,11 +57,22 @@ def one(name, seed):
             return res
         res["demo_rc_patched"] = run_demo() if os.path.exists(demo) else None
         env2 = dict(os.environ, VERIF_REPO=wt, VERIF_SEED=str(seed))
-        r = sh(["/venv/bin/python", "run.py", pid, "--tier", "quick"], cwd=VERIF, env=env2)
-        sigs = sorted(set(re.findall(r"subcheck=(\S+) sig=(\S+)", "\n".join(
-            l for l in r.stdout.splitlines() if not l.startswith("KNOWN-FINDING")))))
-        res.update({"check_rc": r.returncode, "violations": ["%s/%s" % s for s in sigs], "head": head, "seed": seed,
-                    "summary": [l for l in r.stdout.splitlines() if " quick seed=" in l][-1:]})
+        # the check of the property the change was written against, plus checks named in meta.json "also_run" (a change
+        # labelled with one property may be decided by the check of another one)
+        mp = os.path.join(d, "meta.json")
+        also = (json.load(open(mp)).get("also_run") or []) if os.path.exists(mp) else []
+        rc_all, viols, summ = 0, [], []
+        for chk in [pid] + [c for c in also if c != pid]:
+            r = sh(["/venv/bin/python", "run.py", chk, "--tier", "quick"], cwd=VERIF, env=env2)
+            sigs = sorted(set(re.findall(r"subcheck=(\S+) sig=(\S+)", "\n".join(
+                l for l in r.stdout.splitlines() if not l.startswith("KNOWN-FINDING")))))
+            viols += ["%s:%s/%s" % ((chk,) + s_) if chk != pid else "%s/%s" % s_ for s_ in sigs]
+            summ += [l for l in r.stdout.splitlines() if " quick seed=" in l][-1:]
+            if r.returncode == 1:
+                rc_all = 1
+                break
+            rc_all = max(rc_all, r.returncode)
+        res.update({"check_rc": rc_all, "violations": viols, "head": head, "seed": seed, "summary": summ})
     finally:
         sh(["git", "-C", "/repo", "worktree", "remove", "--force", wt])
         shutil.rmtree(tmp, ignore_errors=True)
